@@ -237,14 +237,23 @@ def rule_det3(ctx: Ctx) -> RuleResult:
             inner, snap = strip_snapshot(lp.iter)
             for iff in [x for x in lp.body if isinstance(x, ast.If)]:
                 terms = iff.test.values if isinstance(iff.test, ast.BoolOp) and isinstance(iff.test.op, ast.Or) else [iff.test]
+                want_op = ast.Eq
+                scope = [iff]
+                # the guard clause form: `if <both names differ>: continue` and the removal after it
+                if not iff.orelse and iff.body and isinstance(iff.body[-1], ast.Continue) and len(iff.body) == 1 and \
+                        isinstance(iff.test, ast.BoolOp) and isinstance(iff.test.op, ast.And):
+                    terms, want_op = iff.test.values, ast.NotEq
+                    scope = lp.body[lp.body.index(iff) + 1:]
                 keys = set()
                 for t in terms:
-                    if isinstance(t, ast.Compare) and len(t.ops) == 1 and isinstance(t.ops[0], ast.Eq):
+                    if isinstance(t, ast.Compare) and len(t.ops) == 1 and isinstance(t.ops[0], want_op):
                         sides = {norm(t.left), norm(t.comparators[0])}
                         if pn in sides:
                             keys |= sides - {pn}
-                calls = [x for x in ast.walk(iff) if isinstance(x, ast.Call) and f in [
+                calls = [x for sc in scope for x in ast.walk(sc) if isinstance(x, ast.Call) and f in [
                     t for t in ctx.cg.resolve_call(g, g.module, x) if isinstance(t, FuncInfo)] and x.args and norm(x.args[0]) == lv]
+                if want_op is ast.NotEq and not all(isinstance(sc, ast.Expr) for sc in scope):
+                    calls = []
                 if calls:
                     need = {f"{lv}.__name__", f"{lv}.actual_type.__name__"}
                     ok = need <= keys and snap
@@ -459,6 +468,14 @@ def rule_res1(ctx: Ctx) -> RuleResult:
                 iff = h.module.parents.get(h.module.parents.get(m))
                 pair_guard = isinstance(iff, ast.If) and isinstance(iff.test, ast.Compare) and isinstance(iff.test.ops[0], ast.In) \
                     and "replaces" in norm(iff.test.comparators[0]) and isinstance(iff.test.left, ast.Tuple) and len(iff.test.left.elts) == 2
+                # the pair kept whole: `for pair in permutations(..): if pair in self.replaces: R.discard(pair[0])`
+                whole_pair = isinstance(iff, ast.If) and isinstance(iff.test, ast.Compare) and len(iff.test.ops) == 1 \
+                    and isinstance(iff.test.ops[0], ast.In) and "replaces" in norm(iff.test.comparators[0]) \
+                    and isinstance(iff.test.left, ast.Name) and isinstance(lp, ast.For) and isinstance(lp.target, ast.Name) \
+                    and lp.target.id == iff.test.left.id and m.args and norm(m.args[0]) == f"{lp.target.id}[0]" \
+                    and isinstance(lp.iter, ast.Call) and norm(lp.iter.func).split(".")[-1] == "permutations"
+                if whole_pair and m.func.attr in ("discard", "remove"):
+                    continue
                 if not (m.func.attr in ("discard", "remove") and pair_guard and m.args
                         and norm(m.args[0]) == norm(iff.test.left.elts[0])):
                     mut_ok = False
@@ -611,6 +628,8 @@ RENDER_INVERSE_OK = {
     "str(float(self))": "same text as str(self)",
     "str(int(self))": "same text as str(self)",
     "str(bool(self)).lower()": "bool: 'true'/'false' are the two strings the parser maps back",
+    "'true' if self else 'false'": "bool: the same two strings, chosen by the truth value directly",
+    "'true' if bool(self) else 'false'": "bool: the same two strings, chosen by the truth value directly",
 }
 RENDER_KNOWN_BAD = ("strftime", "__format__", "ctime", "format(", "%")
 
